@@ -6,13 +6,14 @@
 set -u
 PATCH=$(readlink -f "$1"); shift
 V=$(cd "$(dirname "$0")/.." && pwd)
+C=${VERIF_SNAP:-$V}   # (a frozen copy of /verif to run from, while /verif itself is being edited)
 W=$(mktemp -d /var/tmp/verif-mutant-XXXXXX)
 trap 'git -C /repo worktree remove --force "$W/tree" >/dev/null 2>&1; rm -rf "$W"' EXIT
 git -C /repo worktree add -q --detach "$W/tree" HEAD || exit 2
 git -C "$W/tree" apply "$PATCH" || { echo "patch does not apply"; exit 2; }
 mkdir -p "$W/ev" "$W/rp"
 for id in "$@"; do
-	out=$(VERIF_REPO="$W/tree" VERIF_EVIDENCE_DIR="$W/ev" VERIF_REPLAY_DIR="$W/rp" VERIF_BUDGET_S=${VERIF_BUDGET_S:-25} "$V/check" "$id" quick 2>&1)
+	out=$(VERIF_REPO="$W/tree" VERIF_EVIDENCE_DIR="$W/ev" VERIF_REPLAY_DIR="$W/rp" VERIF_BUDGET_S=${VERIF_BUDGET_S:-25} "$C/check" "$id" quick 2>&1)
 	rc=$?
 	case $rc in
 	1) echo "$id: DETECTED  $(echo "$out" | grep -B1 '^VIOLATION' | head -1 | cut -c1-300)" ;;
